@@ -86,7 +86,7 @@ fn lex_(mut input: &str, mut start_of_line: bool) -> impl Iterator<Item = (Synta
                     Some((SyntaxKind::VALUE, value))
                 }
                 _ => {
-                    let (text, remaining) = input.split_at(1);
+                    let (text, remaining) = input.split_at(c.len_utf8());
                     input = remaining;
                     Some((SyntaxKind::ERROR, text))
                 }
